@@ -2788,3 +2788,16 @@ pub mod countfx {
         pub fn live(&self) -> u64 { self.writers.load(Ordering::Relaxed) }
     }
 }
+pub mod markfx2 {
+    use super::markfx::{Ent, Link};
+    pub struct ItMap<L: Link> { pub entries: Vec<Ent<L>>, pub cache: Option<Vec<u64>> }
+    impl<L: Link> ItMap<L> {
+        pub fn ok_collect(&mut self) {
+            self.cache = Some(self.entries.iter().map(|e| e.key.wrapping_mul(31)).collect());
+        }
+        pub fn bad_collect(&mut self) {
+            let c: Vec<u64> = self.entries.iter().filter(|e| e.link != L::DEL).map(|e| e.key.wrapping_mul(31)).collect();
+            self.cache = Some(c);
+        }
+    }
+}
